@@ -5,10 +5,11 @@ From V Require Import SQLCons.Model.
 From Coq Require Import ZArith.
 Open Scope N_scope.
 
-(* no two live rows hold the same value in v (NULL counts as a value, as the index treats it) *)
-Definition unique_ok (c : cstate) : Prop :=
+(* no two live rows hold the same value under the UNIQUE index: the same v, or the same (v, s) for the
+   composite index (NULL counts as a value, as the index treats it) *)
+Definition unique_ok (g : cfg) (c : cstate) : Prop :=
   c_uidx c = true ->
-  forall k1 r1 k2 r2, In (k1, r1) (live_rows c) -> In (k2, r2) (live_rows c) -> r_v r1 = r_v r2 -> k1 = k2.
+  forall k1 r1 k2 r2, In (k1, r1) (live_rows c) -> In (k2, r2) (live_rows c) -> uvals g r1 = uvals g r2 -> k1 = k2.
 
 
 (* values fit their declared type and length *)
@@ -49,9 +50,9 @@ Definition plain_insert (s : stmt) : bool :=
 Definition fix_unique_only : fixes := mkFix true false false.
 
 (* ---------- witness histories ---------- *)
-Definition g_plain : cfg := mkCfg false false 3 false.
-Definition g_nn : cfg := mkCfg false true 3 false.
-Definition g_ck : cfg := mkCfg false false 3 true.
+Definition g_plain : cfg := mkCfg false false 3 false false.
+Definition g_nn : cfg := mkCfg false true 3 false false.
+Definition g_ck : cfg := mkCfg false false 3 true false.
 Definition ins1 (k v : Z) : action := AAuto [SIns MInsert [(Some (VInt k), VInt v, VNull)]].
 
 (* CREATE UNIQUE INDEX ON t(v); INSERT (1,10); UPDATE t SET v=20 WHERE id=1; INSERT (2,10); INSERT (3,10) *)
@@ -75,6 +76,6 @@ Definition wit_nn_conflict : list event :=
 Definition wit_ck_conflict : list event :=
   [(0, ins1 1 10); (0, AAuto [SIns (MDoUpdate true (VInt (-5))) [(Some (VInt 1), VInt 3, VNull)]])].
 
-Definition dup_rows (c : cstate) : Prop :=
+Definition dup_rows (g : cfg) (c : cstate) : Prop :=
   c_uidx c = true /\ exists k1 r1 k2 r2, In (k1, r1) (live_rows c) /\ In (k2, r2) (live_rows c) /\
-                                        r_v r1 = r_v r2 /\ k1 <> k2.
+                                        uvals g r1 = uvals g r2 /\ k1 <> k2.
